@@ -238,6 +238,28 @@ type appStorageObs struct {
 	lab     string
 	labApps map[basics.AppIndex]bool // apps created by a booster with the lab program
 	pending map[transactions.Txid]bool
+	toCheck map[basics.AppIndex]bool // apps whose box enumeration is to be compared with the ledger's
+}
+
+// AfterBlock implements PostBlock: compare the reference box enumeration of every application whose
+// boxes changed since the last comparison with what the real ledger lists at its latest round.
+func (o *appStorageObs) AfterBlock(s *Sim, qseed uint64) {
+	st := s.states[s.latest]
+	if st == nil || s.led.Latest() != s.latest {
+		return
+	}
+	boxes, _ := refBoxes(st)
+	ids := make([]basics.AppIndex, 0, len(o.toCheck))
+	for id := range o.toCheck {
+		ids = append(ids, id)
+	}
+	sort.Slice(ids, func(i, j int) bool { return ids[i] < ids[j] })
+	o.toCheck = map[basics.AppIndex]bool{}
+	for _, id := range ids {
+		if !o.ledgerBoxes(s, st, id, boxes[id]) {
+			return
+		}
+	}
 }
 
 func newAppStorageObs(s *Sim) *appStorageObs {
@@ -247,7 +269,7 @@ func newAppStorageObs(s *Sim) *appStorageObs {
 	for _, k := range labKinds {
 		s.statInit("c23.boost."+k, "c23.boost_ok."+k)
 	}
-	o := &appStorageObs{lab: labSource(), labApps: map[basics.AppIndex]bool{}, pending: map[transactions.Txid]bool{}}
+	o := &appStorageObs{lab: labSource(), labApps: map[basics.AppIndex]bool{}, pending: map[transactions.Txid]bool{}, toCheck: map[basics.AppIndex]bool{}}
 	if o.lab == "" {
 		s.stat("c23.lab_program_unavailable", 1)
 	}
@@ -559,11 +581,11 @@ func (o *appStorageObs) BlockDone(s *Sim, prev, next *State, blk bookkeeping.Blo
 				next.Round, id, addr, ad.TotalBoxes, ad.TotalBoxBytes, n, b, names))
 			return
 		}
-		// cross-check the enumeration with the real ledger at the latest round
+		// the enumeration is cross-checked with the real ledger at the next quiescent instant (AfterBlock):
+		// here a tracker commit may be parked half-way by the crash scheduler, and a prefix query from
+		// this goroutine would wait for it forever
 		if n > 0 || len(prevBoxes[id]) > 0 {
-			if !o.ledgerBoxes(s, next, id, boxes[id]) {
-				return
-			}
+			o.toCheck[id] = true
 		}
 	}
 	// schema limits
